@@ -89,6 +89,10 @@ enum Origin {
 enum Action {
     Stop(i32),
     New(Kind),
+    /// `x`: stop the SYSTEM ARBITER (`System::current().arbiter().stop()`, or `Arbiter::current().stop()` on the
+    /// system thread).  Its loop ends; the system, its controller and every other arbiter go on, and a
+    /// later `stop_with_code` works as ever.
+    StopSysArb,
 }
 
 /// `stop …` (one `Stop` action) or `batch …`: actions issued back to back from one origin
@@ -136,6 +140,10 @@ enum TaskKind {
     /// a function that has the OWNER `Arbiter` of the very arbiter it is sent to moved into it and calls
     /// `join()` on it there: that call cannot return while the loop that runs it is alive
     SelfJoin,
+    /// a future that starts a `spawn_blocking` job which runs until the director releases it: the arbiter's
+    /// runtime cannot finish being dropped — the thread cannot exit — while the job runs, so the time between
+    /// "the loop has ended" and "the thread has exited" becomes long enough to be looked at
+    Blocking,
 }
 
 #[derive(Clone, Debug)]
@@ -180,11 +188,13 @@ struct Scenario {
     lates: Vec<(usize, bool, usize)>,
     /// c10: targets whose owner object goes into a `selfjoin` task (target, task)
     selfjoined: Vec<(usize, usize)>,
+    /// c10: `Arbiter::new` targets that get a `blocking` task (ascending)
+    blocked: Vec<usize>,
     stopped: Vec<bool>, // c10: a stop command exists for this arbiter
 }
 
 const MAX_LINES: usize = 24;
-const MAX_TASKS: usize = 400;
+const MAX_TASKS: usize = 2400;
 
 fn parse_i32(s: &str) -> Option<i32> {
     // same grammar as the Lean driver: optional '-', then 1..10 digits, value in the range of `i32`
@@ -435,11 +445,19 @@ fn issue_stop(sys: &System, code: i32, plain: bool) {
 type Late = Arc<Mutex<Vec<(ArbSlot, Option<bool>)>>>;
 
 /// the actions of one entry, back to back, on the calling thread (`sys`: None = `System::current()`)
-fn perform(actions: &[Action], sys: Option<&System>, rng: &mut Rng, custom: (bool, bool), plain: bool, late: &Late) {
+fn perform(actions: &[Action], sys: Option<&System>, rng: &mut Rng, custom: (bool, bool), plain: bool, late: &Late, on_sys_thread: bool) {
     // `custom.1` (`rt=slow`): the first arbiter created here has a slow runtime factory
     let (custom, mut slow) = custom;
     for a in actions {
         match a {
+            Action::StopSysArb => {
+                match sys {
+                    Some(s) => s.arbiter().stop(),
+                    // on the system thread `Arbiter::current()` is the system arbiter
+                    None if on_sys_thread && plain => Arbiter::current().stop(),
+                    None => System::current().arbiter().stop(),
+                };
+            }
             Action::Stop(c) => match sys {
                 Some(s) => issue_stop(s, *c, plain),
                 None => issue_stop(&System::current(), *c, plain),
@@ -540,8 +558,25 @@ fn exec_c09(sc: &Scenario, mode_run: bool, jseed: u64) -> Out {
         // a scenario that creates arbiters later on keeps the id lock (shared) until it is over
         let hold = if nlate > 0 { shared } else { drop(shared); None };
         drop(excl);
-        let _ = setup_tx.send((sys.clone(), slots, early, shifted));
+        // the tasks that will issue the `sys-task` entries are handed to the system arbiter first — before any
+        // entry (one of which may stop the system arbiter) can run
+        let mut pre_issuers = vec![];
         for (i, e, gate, ack) in sys_issuers {
+            if e.origin == Origin::SysTask {
+                let late = late_sys.clone();
+                let mut r = Rng::new(jseed ^ (0x99 + i as u64));
+                sys.arbiter().spawn(async move {
+                    let _ = gate.await;
+                    // one poll: no await between the actions
+                    perform(&e.actions, None, &mut r, (custom, slow), plain, &late, true);
+                    let _ = ack.send(());
+                });
+            } else {
+                pre_issuers.push((i, e, gate, ack));
+            }
+        }
+        let _ = setup_tx.send((sys.clone(), slots, early, shifted));
+        for (i, e, gate, ack) in pre_issuers {
             if i == 0 && immediate_done {
                 let _ = ack.send(());
                 continue;
@@ -554,18 +589,8 @@ fn exec_c09(sc: &Scenario, mode_run: bool, jseed: u64) -> Out {
                         return;
                     }
                     jitter(&mut rng_sys);
-                    perform(&e.actions, None, &mut rng_sys, (custom, slow), plain, &late_sys);
+                    perform(&e.actions, None, &mut rng_sys, (custom, slow), plain, &late_sys, true);
                     let _ = ack.send(());
-                }
-                Origin::SysTask => {
-                    let late = late_sys.clone();
-                    let mut r = Rng::new(jseed ^ (0x99 + i as u64));
-                    sys.arbiter().spawn(async move {
-                        let _ = gate.await;
-                        // one poll: no await between the actions
-                        perform(&e.actions, None, &mut r, (custom, slow), plain, &late);
-                        let _ = ack.send(());
-                    });
                 }
                 _ => {}
             }
@@ -610,7 +635,7 @@ fn exec_c09(sc: &Scenario, mode_run: bool, jseed: u64) -> Out {
                 let mut r = Rng::new(jseed ^ (0x99 + i as u64));
                 slots[k].handle.spawn(async move {
                     let _ = gate.await;
-                    perform(&actions, None, &mut r, (custom, slow), plain, &late);
+                    perform(&actions, None, &mut r, (custom, slow), plain, &late, false);
                     let _ = ack.send(());
                 });
             }
@@ -624,7 +649,7 @@ fn exec_c09(sc: &Scenario, mode_run: bool, jseed: u64) -> Out {
                 thread::spawn(move || {
                     let _ = gate.blocking_recv();
                     jitter(&mut r);
-                    perform(&actions, Some(&sys), &mut r, (custom, slow), plain, &late);
+                    perform(&actions, Some(&sys), &mut r, (custom, slow), plain, &late, false);
                     let _ = ack.send(());
                 });
             }
@@ -894,6 +919,8 @@ struct TaskLog {
     selfjoin_owner: Mutex<HashMap<usize, Arbiter>>,
     /// `selfjoin` tasks whose `join()` returned: (task, Ok?, value of the start counter at that moment)
     selfjoin_ret: Mutex<Vec<(usize, bool, usize)>>,
+    /// senders that release the `blocking` jobs (dropping them releases too)
+    blockers: Mutex<Vec<(usize, mpsc::Sender<()>)>>,
 }
 
 /// what the director tells a task that holds its arbiter's thread
@@ -1002,6 +1029,16 @@ fn do_spawn(h: &Sender10, kind: TaskKind, task: usize, log: Arc<TaskLog>) -> boo
         }),
         // holds the arbiter's thread until the director opens the gate: everything sent meanwhile
         // is found by the arbiter's loop in one go
+        TaskKind::Blocking => {
+            let (tx, rx) = mpsc::channel::<()>();
+            log.blockers.lock().unwrap().push((task, tx));
+            sp!(async move {
+                log.start(task);
+                tokio::task::spawn_blocking(move || {
+                    let _ = rx.recv_timeout(Duration::from_secs(8));
+                });
+            })
+        }
         // `join()` on the arbiter's own owner object from a task of that arbiter.  (Real code: the OS refuses
         // the self-join, std panics, tokio contains the panic in the task: nothing is recorded.)
         TaskKind::SelfJoin => {
@@ -1135,6 +1172,7 @@ fn exec_c10(sc: &Scenario, jseed: u64) -> Out {
         gate_ack: Mutex::new(None),
         selfjoin_owner: Mutex::new(HashMap::new()),
         selfjoin_ret: Mutex::new(vec![]),
+        blockers: Mutex::new(vec![]),
     });
     // per target: the owner object (None for the system arbiter) and a handle
     let mut real = arbs.into_iter();
@@ -1306,6 +1344,41 @@ fn exec_c10(sc: &Scenario, jseed: u64) -> Out {
             None => owner_rets.push("???".into()),
         }
     }
+
+    // `blocking`: between "the loop has ended" and "the thread has exited".  The futures the loop owned are
+    // dropped when its LocalSet is (the drop flag of a `pend` future that had started fires): the loop is over,
+    // and while the blocking job keeps the runtime from going away the channel must already refuse commands.
+    let mut teardown: Vec<String> = vec![];
+    for ai in sc.blocked.iter().copied() {
+        let flags: Vec<Arc<AtomicBool>> =
+            log.guards.lock().unwrap().iter().filter(|(t, _)| sc.task_arb[*t] == ai && log.started(*t)).map(|(_, f)| f.clone()).collect();
+        let job_started = log.blockers.lock().unwrap().iter().any(|(t, _)| sc.task_arb[*t] == ai && log.started(*t));
+        let fired = job_started && !flags.is_empty() && {
+            let t0 = Instant::now();
+            while !flags.iter().all(|f| f.load(Ordering::SeqCst)) && t0.elapsed() < WATCHDOG {
+                thread::sleep(Duration::from_micros(200));
+            }
+            flags.iter().all(|f| f.load(Ordering::SeqCst))
+        };
+        if fired {
+            let r = (
+                handles[ai].spawn(async {}),
+                handles[ai].stop(),
+                owners[ai].as_ref().map(|a| a.spawn_fn(|| {})).unwrap_or(false),
+            );
+            if r != (false, false, false) {
+                t3.push(("C10".into(), format!(
+                    "arbiter {ai}: its loop has ended (the futures it owned have been dropped) but, while its thread was still winding down, ArbiterHandle::spawn / ArbiterHandle::stop / Arbiter::spawn_fn returned {r:?}: the command was accepted and can never run"
+                )));
+            }
+            teardown.push([r.0, r.1, r.2].iter().map(|x| if *x { '1' } else { '0' }).collect());
+        } else {
+            teardown.push("---".into());
+        }
+        // release this arbiter's blocking jobs
+        log.blockers.lock().unwrap().retain(|(t, _)| sc.task_arb[*t] != ai);
+    }
+    log.blockers.lock().unwrap().clear();
 
     // "join returns only after the loop has ended": when join has returned, (a) every `pend` future
     // that had STARTED on that arbiter has been dropped (the LocalSet that owns it is gone) and
@@ -1527,7 +1600,7 @@ fn exec_c10(sc: &Scenario, jseed: u64) -> Out {
         Some(g) => b(g),
     };
     let logline = format!(
-        "rets={} starts={} waits={} joins={} sysgone={} post={} ids={} once={} late={} owner={}",
+        "rets={} starts={} waits={} joins={} sysgone={} post={} ids={} once={} late={} owner={} teardown={}",
         if rets.is_empty() { "-".into() } else { rets.iter().map(|r| b(*r)).collect::<Vec<_>>().join("") },
         if starts.is_empty() { "-".into() } else { starts.join(",") },
         if waits.is_empty() { "-".into() } else { waits.iter().map(|(t, ok)| format!("t{t}:{}", b(*ok))).collect::<Vec<_>>().join(",") },
@@ -1538,6 +1611,7 @@ fn exec_c10(sc: &Scenario, jseed: u64) -> Out {
         b(once_ok),
         b(late),
         if owner_rets.is_empty() { "-".to_string() } else { owner_rets.join(",") },
+        if teardown.is_empty() { "-".to_string() } else { teardown.join(",") },
     );
     // normalised verdict (the Lean driver prints the same from the model's final state)
     let mut v = vec![];
@@ -1554,6 +1628,7 @@ fn exec_c10(sc: &Scenario, jseed: u64) -> Out {
     v.push(format!("once={}", if once_ok { "ok" } else { "bad" }));
     v.push(format!("late={}", b(late)));
     v.push(format!("owner={}", if owner_rets.is_empty() { "-".to_string() } else { owner_rets.join(",") }));
+    v.push(format!("teardown={}", if teardown.is_empty() { "-".to_string() } else { teardown.join(",") }));
     Out { log: logline, verdict: v.join(" "), t3 }
 }
 
@@ -1930,7 +2005,7 @@ fn feed(sc: &mut Scenario, ws: &[&str]) -> LineRes {
         }
         (9, ["batch", o, rest @ ..]) => {
             // straight-line client code: `s<code>` = stop_with_code, `n<r|b|d|e>` = Arbiter::new (kind)
-            let Some(origin) = parse_origin(sc, o, false) else { return bad() };
+            let Some(origin) = parse_origin(sc, o, true) else { return bad() };
             let (items, seq) = match rest.last() {
                 Some(&"seq") => (&rest[..rest.len() - 1], true),
                 Some(&"race") => (&rest[..rest.len() - 1], false),
@@ -1952,6 +2027,7 @@ fn feed(sc: &mut Scenario, ws: &[&str]) -> LineRes {
                         "nb" => Action::New(Kind::Busy),
                         "nd" => Action::New(Kind::Dropped),
                         "ne" => Action::New(Kind::Early),
+                        "x" => Action::StopSysArb,
                         _ => return bad(),
                     }
                 };
@@ -1959,7 +2035,8 @@ fn feed(sc: &mut Scenario, ws: &[&str]) -> LineRes {
             }
             let e = Entry { origin, actions, seq };
             // one batch per case; at most two arbiters created by it; not while the counters are aligned
-            if sc.has_batch || e.news() > 2 || (e.news() > 0 && sc.align.is_some()) || !entry_ok(sc, &e.origin, seq) {
+            // (a thread that belongs to no System cannot create arbiters)
+            if sc.has_batch || e.news() > 2 || (e.news() > 0 && (sc.align.is_some() || e.origin == Origin::Foreign)) || !entry_ok(sc, &e.origin, seq) {
                 return bad();
             }
             sc.has_batch = true;
@@ -2018,6 +2095,16 @@ fn feed(sc: &mut Scenario, ws: &[&str]) -> LineRes {
                 return bad();
             }
             let Some(via) = parse_via(sc, a, via) else { return bad() };
+            if kind == TaskKind::Blocking {
+                // the system's runtime is the harness's to drop: `Arbiter::new` targets only
+                if sc.sys_idx == Some(a) {
+                    return bad();
+                }
+                if !sc.blocked.contains(&a) {
+                    sc.blocked.push(a);
+                    sc.blocked.sort();
+                }
+            }
             if kind == TaskKind::SelfJoin {
                 // an `Arbiter::new` target that still has its owner object, which no `late` line needs
                 if sc.sys_idx == Some(a) || sc.selfjoined.iter().any(|x| x.0 == a) || sc.lates.iter().any(|l| l.0 == a) {
@@ -2036,7 +2123,7 @@ fn feed(sc: &mut Scenario, ws: &[&str]) -> LineRes {
         }
         (10, ["spawnn", a, via, kind, n]) => {
             let (Some(a), Some(kind), Some(n)) = (parse_nat(a), parse_kind(kind), parse_nat(n)) else { return bad() };
-            if a >= sc.narb || sc.nlines >= MAX_LINES || !(2..=300).contains(&n) || sc.ntask + n > MAX_TASKS || kind == TaskKind::Gate || kind == TaskKind::SelfJoin {
+            if a >= sc.narb || sc.nlines >= MAX_LINES || !(2..=1600).contains(&n) || sc.ntask + n > MAX_TASKS || kind == TaskKind::Gate || kind == TaskKind::SelfJoin || kind == TaskKind::Blocking {
                 return bad();
             }
             let Some(via) = parse_via(sc, a, via) else { return bad() };
@@ -2204,6 +2291,7 @@ fn parse_kind(s: &str) -> Option<TaskKind> {
         "block" => TaskKind::Block,
         "gate" => TaskKind::Gate,
         "selfjoin" => TaskKind::SelfJoin,
+        "blocking" => TaskKind::Blocking,
         _ => return None,
     })
 }
@@ -2443,6 +2531,8 @@ fn write_batch_c09(w: &mut dyn Write, name: &str, rng: &mut Rng, kinds: &[usize]
             if b == b's' {
                 ci += 1;
                 format!("s{}", codes[ci - 1])
+            } else if b == b'x' {
+                "x".to_string()
             } else {
                 format!("n{}", ["r", "r", "b", "d", "e"][rng.below(5)])
             }
@@ -2454,6 +2544,8 @@ fn write_batch_c09(w: &mut dyn Write, name: &str, rng: &mut Rng, kinds: &[usize]
     }
     // a stop in front of the batch must not need the running system if the batch runs in front of `run`
     let front = if origin == "sys-pre" { "foreign" } else { ["foreign", "sys-task"][rng.below(2)] };
+    // (the tasks that issue `sys-task` entries are handed to the system arbiter before anything runs, so a
+    // stopped system arbiter does not keep them from issuing)
     match others {
         3 => writeln!(w, "stop {front} {extra}\nbatch {origin} {} seq", items.join(" ")).unwrap(),
         4 => writeln!(w, "stop sys-pre {extra}\nbatch {origin} {} race", items.join(" ")).unwrap(),
@@ -2593,8 +2685,45 @@ fn directed_codes_c09(w: &mut dyn Write, rng: &mut Rng, thorough: bool) {
     writeln!(w, "case c{} c09\narb busy\nbatch sys-pre s-65536 nr s2147483647\ngo code j={}", codes.len() + 1, rng.next() % 1_000_000).unwrap();
 }
 
+/// Directed scenarios (both tiers, in front): the SYSTEM ARBITER is stopped first (`x`) — from the system thread
+/// in front of `run`, from a task on it, from an arbiter, from a foreign thread — and the system is stopped
+/// afterwards: the stop goes to the controller, not through the system arbiter, so the code is delivered and
+/// every arbiter is stopped all the same.
+fn directed_sysarb_stop_c09(w: &mut dyn Write, rng: &mut Rng, thorough: bool) {
+    const R: usize = 2;
+    const B: usize = 3;
+    let mut n = 0;
+    let mut one = |w: &mut dyn Write, rng: &mut Rng, kinds: &[usize], origin: &str, pattern: &str, others: usize| {
+        write_batch_c09(w, &format!("y{n}"), rng, kinds, origin, pattern, others, if n % 2 == 0 { "code" } else { "run" }, false);
+        n += 1;
+    };
+    one(w, rng, &[R], "sys-pre", "xs", 0);
+    one(w, rng, &[B, R], "foreign", "xs", 0);
+    one(w, rng, &[R], "sys-task", "xs", 0);
+    one(w, rng, &[R], "arb:0", "xs", 0);
+    one(w, rng, &[R], "foreign", "x", 1);
+    one(w, rng, &[], "sys-pre", "xsns", 0);
+    if thorough {
+        for (oi, origin) in ["sys-pre", "sys-task", "arb:0", "foreign"].iter().enumerate() {
+            for pattern in ["xs", "x", "sxs", "xss", "xns", "nxs", "xsns", "xx"] {
+                if *origin == "foreign" && pattern.contains('n') {
+                    continue;
+                }
+                for others in 0..=5usize {
+                    if !pattern.contains('s') && others == 0 {
+                        continue;
+                    }
+                    let kinds: Vec<usize> = if oi == 2 { vec![[R, B][others % 2], rng.below(5)] } else { (0..others % 3).map(|_| rng.below(5)).collect() };
+                    one(w, rng, &kinds, origin, pattern, others);
+                }
+            }
+        }
+    }
+}
+
 fn gen_c09(a: &Args, w: &mut dyn Write) {
     let mut rng = Rng::new(a.seed ^ 0xC09);
+    directed_sysarb_stop_c09(w, &mut rng, a.tier == "thorough");
     directed_codes_c09(w, &mut rng, a.tier == "thorough");
     directed_slow_c09(w, &mut rng, a.tier == "thorough");
     directed_batch_c09(w, &mut rng, a.tier == "thorough");
@@ -2661,7 +2790,7 @@ fn gen_c09(a: &Args, w: &mut dyn Write) {
         }
         // seeded batches
         for n in 0..24 {
-            let origin = ["sys-pre", "sys-task", "arb:0"][rng.below(3)];
+            let origin = ["sys-pre", "sys-task", "arb:0", "foreign"][rng.below(4)];
             let mut kinds: Vec<usize> = (0..rng.below(3)).map(|_| rng.below(5)).collect();
             if origin == "arb:0" {
                 kinds.insert(0, [1, 2, 3][rng.below(3)]);
@@ -2671,7 +2800,7 @@ fn gen_c09(a: &Args, w: &mut dyn Write) {
             let mut pattern = String::new();
             for _ in 0..len {
                 let nn = pattern.bytes().filter(|b| *b == b'n').count();
-                pattern.push(if nn < 2 && rng.chance(2, 5) { 'n' } else { 's' });
+                pattern.push(if rng.chance(1, 8) { 'x' } else if nn < 2 && origin != "foreign" && rng.chance(2, 5) { 'n' } else { 's' });
             }
             let mode = if rng.chance(1, 2) { "code" } else { "run" };
             let (others, custom) = (rng.below(6), rng.chance(1, 6));
@@ -2684,6 +2813,7 @@ fn gen_c09(a: &Args, w: &mut dyn Write) {
     writeln!(w, "case bad3\narb running\nstop sys-pre 0\ngo code j=0").unwrap();
     writeln!(w, "case bad4 c09\nalign 0\narb done\nalign 1\nalign x\nalign 0\nalign 0\narb running\nstop arb:0 1\nstop foreign 1\nalign 0\ngo code j=2").unwrap();
     writeln!(w, "case bad5 c09 rt=custom\narb running\nbatch\nbatch foreign s1\nbatch sys-pre\nbatch sys-pre seq\nbatch arb:1 s1\nbatch sys-pre s1 nx\nbatch sys-pre sx\nbatch sys-pre s1 s2 s3 s4 s5 s6\nbatch sys-pre nr nr nr\nbatch sys-pre nr seq race\nbatch sys-pre nr\ngo code j=1\nbatch sys-task s1\nstop sys-task 1\nstop sys-pre 2 seq\nstop sys-pre 3 race\nstop foreign 4\ngo code j=3").unwrap();
+    writeln!(w, "case bad8 c09\nbatch foreign nr s1\nbatch foreign x nr\nbatch sys-pre xx\nbatch sys-pre X\nbatch foreign x\ngo code j=9\nstop sys-task 3\ngo code j=9").unwrap();
     writeln!(w, "case bad7 c09\nstop foreign 2147483648\nstop foreign -2147483649\nstop foreign 12345678901\nstop foreign --1\nstop foreign -\nbatch sys-pre s2147483648\nstop foreign -2147483648\nstop foreign 2147483647\ngo code j=8").unwrap();
     writeln!(w, "case bad6 c09\narb running\nalign 0\nbatch sys-pre s1 nr\nbatch sys-pre s1 s-2\nbatch sys-pre s2\nstop sys-task 5\nstop sys-pre 6 race\nstop sys-pre 7\ngo run j=4").unwrap();
 }
@@ -2712,6 +2842,25 @@ fn directed_c10(w: &mut dyn Write, rng: &mut Rng, n: &mut usize, thorough: bool)
     // (0) a task running ON an arbiter sends while its thread is held: to its own arbiter through
     // `Arbiter::current()` (`c0`) or a captured handle (`t0`), behind commands / a stop other threads
     // have already sent; to another arbiter; stopping its own arbiter
+    // (0000) a backlog far beyond a thousand commands behind a held thread: every send to the live arbiter is
+    // accepted and everything in front of the stop starts, in order; the time between "loop ended" and "thread
+    // exited", stretched by a blocking job: the channel refuses commands as soon as the loop is over
+    case(w, &[s("arb"), s("spawn 0 own gate"), s("wait t0"), s("spawnn 0 own fn 800"), s("spawnn 0 h1 fut 700"), s("open t0"), s("wait t1500"), s("stop 0 own")], rng);
+    case(w, &[s("sysarb"), s("spawn 0 own gate"), s("wait t0"), s("spawnn 0 h1 fn 1100"), s("stop 0 own"), s("spawnn 0 h2 fn 10"), s("open t0")], rng);
+    case(w, &[s("arb"), s("spawn 0 own pend"), s("spawn 0 h1 blocking"), s("wait t1"), s("stop 0 own")], rng);
+    case(w, &[s("@rt=custom"), s("arb"), s("arb"), s("spawn 1 own blocking"), s("spawn 1 own pend"), s("wait t1"), s("spawn 0 h1 pend"), s("spawn 0 h2 blocking"), s("wait t3"), s("late 0 sys"), s("stop 1 h2"), s("stop 0 own")], rng);
+    if thorough {
+        for (a, b) in [(1023usize, 2usize), (1024, 1), (1025, 300), (1600, 700), (512, 513)] {
+            for tgt in ["arb", "sysarb"] {
+                case(w, &[s(tgt), s("spawn 0 h1 gate"), s("wait t0"), format!("spawnn 0 own fn {a}"), format!("spawnn 0 h2 fut {b}"), s("open t0"), format!("wait t{}", a + b), s("stop 0 own")], rng);
+                case(w, &[s(tgt), s("spawn 0 own gate"), s("wait t0"), format!("spawnn 0 h1 fn {a}"), s("stop 0 h2"), format!("spawnn 0 own fn {b}"), s("open t0")], rng);
+            }
+        }
+        for via in ["own", "h1", "h2"] {
+            case(w, &[s("arb"), format!("spawn 0 {via} blocking"), s("spawn 0 own pend"), s("spawn 0 h1 pend"), s("wait t2"), format!("stop 0 {via}")], rng);
+            case(w, &[s("arb"), s("spawn 0 own gate"), s("wait t0"), s("spawn 0 c0 pend"), format!("spawn 0 {via} blocking"), s("spawn 0 h2 fn"), s("open t0"), s("wait t3"), s("stop 0 c0")], rng);
+        }
+    }
     // (000) `join()` on the owner object from a task of the arbiter itself never returns while the loop is
     // alive (what is sent afterwards still starts, so a returned join would have lied); Systems constructed at
     // the same moment on several threads get different ids; a slow runtime factory
@@ -2867,6 +3016,9 @@ fn gen_c10(a: &Args, w: &mut dyn Write) {
                 }
             } else {
                 let mut kind = KINDS10[if rng.chance(1, 3) { rng.below(2) } else { rng.below(8) }];
+                if !(with_sys && arb == sys_pos) && rng.chance(1, 15) {
+                    kind = "blocking";
+                }
                 // now and then the owner object goes into a task of its own arbiter and is joined there
                 if !(with_sys && arb == sys_pos) && !no_owner[arb] && rng.chance(1, 12) {
                     kind = "selfjoin";
@@ -2980,6 +3132,7 @@ fn gen_c10(a: &Args, w: &mut dyn Write) {
     writeln!(w, "case bad2 c10\narb\nspawn 0 own fn\nident\narb early\nstop sys-pre 1").unwrap();
     writeln!(w, "case bad3 c10\nhost 0 kept\nhost 4 kept\nhost 1 gone\nhost 2 kept\nhost 1 dropped\nsysarb\nsysarb\narb\narb\narb\nident\nspawn 1 own gate\nspawn 1 own fn\nwait t1\nwait t0\nopen t1\nopen t0\nopen t0\nwait t1\nspawnn 1 own fn 1\nspawnn 1 own fn 301\nspawnn 1 own gate 5\nspawnn 1 h1 fn 3\nspawnn 0 own fut 300\nspawnn 0 own fut 100\nstop 0 own\nstop 1 own\ngo j=9\nstop 2 h2\ngo j=9").unwrap();
     writeln!(w, "case bad4 c10\narb\nhost 1 kept\nspawn 0 own fn\nsysarb\nstop 0 own\ngo j=1").unwrap();
+    writeln!(w, "case bad9 c10\nsysarb\narb\nspawn 0 own blocking\nspawnn 1 own blocking 2\nspawnn 1 own fn 1601\nspawnn 1 own fn 1600\nspawnn 1 h1 fn 800\nspawn 1 h1 blocking\nstop 0 own\nstop 1 own\ngo j=8").unwrap();
     writeln!(w, "case bad7 c10 rt=slow\nsysids 1 5\nsysids 9 5\nsysids 2 0\nsysids 2 1001\nsysids x 1\nsysarb\narb\nspawn 0 own selfjoin\nspawnn 1 own selfjoin 2\nlate 1 dir\nspawn 1 h1 selfjoin\nstop 1 own\nstop 0 own\ngo j=6").unwrap();
     writeln!(w, "case bad8 c10\narb\nspawn 0 h2 selfjoin\nspawn 0 h1 selfjoin\nlate 0 sys\nlate 0 dir\nstop 0 own\ngo j=7").unwrap();
     writeln!(w, "case bad6 c10\nlate 0 dir\nsysarb\narb\nlate 0 dir\nlate 1 sys\nlate 1 here\nlate 2 dir\nlate 1 dir\nlate 1 dir\nwait t0\nwait t1\nspawn 1 own fn\nwait t2\nstop 1 own\nstop 0 own\narb\ngo j=5").unwrap();
